@@ -1287,6 +1287,10 @@ def c14_cases(hist, rnd, offered):
         # a ring used by the backend needs a valid layout first
         if any(a["op"] == "use_ring" for a in c["steps"]):
             pre += [ring_letter(dict(op="set_vring_addr", q=q, usedIdx=0)) for q in (0, 1)]
+            if i % 2 == 0:
+                # in half of these histories the rings already have a call descriptor when the history begins (removing or
+                # replacing it and then using the ring is then within reach of two letters)
+                pre += [ring_letter(dict(op="set_vring_call", q=q, fd="new")) for q in (0, 1)]
         body, cur_rid = [], 0
         for a in c["steps"]:
             body.append(ring_letter(a, cur_rid))
